@@ -332,6 +332,18 @@ func (w *c20World) runCase(c *common, lg *tracelog.Log, parBin string, ci int, c
 		before, _ := sandbox.Take(root)
 		cmd := exec.Command(parBin, argv...)
 		cmd.Dir = cwd
+		// the number of CPUs the process sees is part of the configuration: every fourth case runs on one CPU,
+		// every fourth on three (defaults derived from the CPU count must stay valid)
+		procs := 0
+		switch ci % 4 {
+		case 1:
+			procs = 1
+		case 3:
+			procs = 3
+		}
+		if procs > 0 {
+			cmd.Env = append(os.Environ(), fmt.Sprintf("GOMAXPROCS=%d", procs))
+		}
 		var so, se bytes.Buffer
 		cmd.Stdout, cmd.Stderr = &so, &se
 		done := make(chan error, 1)
@@ -387,7 +399,7 @@ func (w *c20World) runCase(c *common, lg *tracelog.Log, parBin string, ci int, c
 				setWritten = vo.Err == "" && !vo.Needed && vo.PUsable == 2 && vo.AllData
 			}
 		}
-		lg.Emit(tracelog.M{"ev": "cli", "c": cs.C, "argv": scrub(argv, c.dir), "status": status, "crashed": crashed, "truth": truth,
+		lg.Emit(tracelog.M{"ev": "cli", "c": cs.C, "gomaxprocs": procs, "argv": scrub(argv, c.dir), "status": status, "crashed": crashed, "truth": truth,
 			"post":        tracelog.M{"all_intact": allIntact, "set_written": setWritten, "unchanged": unchanged},
 			"stdout_tail": tail(so.String(), 160), "stderr_tail": tail(se.String(), 160)})
 	}
